@@ -6,7 +6,7 @@
    the model is unique and [cden] computes it; [vden] is the TRIPOLI-4 reading of a
    volume table. *)
 From Coq Require Import List ZArith NArith Bool Reals Permutation Lia.
-From T4V Require Import Base.Scalar C13.Model C13.ModelTr C13.Spec C13.Proofs C13.ProofsDedup C13.ProofsFill C13.ProofsVol C13.ProofsTr.
+From T4V Require Import Base.Scalar C13.Model C13.ModelTr C13.Spec C13.Proofs C13.ProofsDedup C13.ProofsFill C13.ProofsVol C13.ProofsTr C13.ProofsTr2.
 Import ListNotations.
 Open Scope Z_scope.
 
@@ -21,7 +21,6 @@ Theorem C13_dedup_merges_equal : forall (surfs : list (Z * desc R)) k k',
   exists d, In (k, d) surfs /\ In (k', d) surfs
             /\ In (k', d) (fst (remove_duplicate_surfaces RS surfs)).
 Proof. exact dedup_merges_equal. Qed.
-Print Assumptions C13_dedup_merges_equal.
 
 (* the same for any scalar (binary64 included): a merged pair passed the
    implementation's own equality test, the survivor is kept *)
@@ -31,12 +30,10 @@ Theorem C13_dedup_merges_tested : forall T (S : Scalar T) surfs k k',
     /\ In (k', d') (fst (remove_duplicate_surfaces S surfs))
     /\ (desc_eqb S d' d = true \/ (k' = k /\ d' = d)).
 Proof. exact @dedup_merges_tested. Qed.
-Print Assumptions C13_dedup_merges_tested.
 
 (* SurfaceT4.__eq__ at R is equality of (type, parameters, transformation) *)
 Theorem C13_desc_eqb_sound : forall a b : desc R, desc_eqb RS a b = true -> a = b.
 Proof. exact desc_eqb_RS. Qed.
-Print Assumptions C13_desc_eqb_sound.
 
 (* SurfaceT4.__hash__ is consistent with __eq__: the hash is the tuple hash [mix]
    of exactly the components __eq__ compares, so for any element hash [h] that
@@ -47,33 +44,28 @@ Theorem C13_hash_consistent : forall T (S : Scalar T) (h : T -> Z) (mix : list Z
   (forall x y, seqb S x y = true -> h x = h y) ->
   forall a b, desc_eqb S a b = true -> desc_hash h mix a = desc_hash h mix b.
 Proof. exact @desc_hash_consistent. Qed.
-Print Assumptions C13_hash_consistent.
 
 (* which number survives: never a larger one; at R the smallest number that
    carries the descriptor; every input number is renumbered *)
 Theorem C13_dedup_survivor_smallest : forall T (S : Scalar T) surfs k k',
   In (k, k') (snd (remove_duplicate_surfaces S surfs)) -> k' <= k.
 Proof. exact @dedup_survivor_smallest. Qed.
-Print Assumptions C13_dedup_survivor_smallest.
 
 Theorem C13_dedup_survivor_minimal : forall (surfs : list (Z * desc R)) k k' d j,
   NoDup (map fst surfs) ->
   In (k, k') (snd (remove_duplicate_surfaces RS surfs)) ->
   In (k, d) surfs -> In (j, d) surfs -> k' <= j.
 Proof. exact dedup_survivor_minimal. Qed.
-Print Assumptions C13_dedup_survivor_minimal.
 
 Theorem C13_dedup_covers : forall T (S : Scalar T) surfs,
   Permutation (map fst (snd (remove_duplicate_surfaces S surfs))) (map fst surfs).
 Proof. exact @dedup_covers. Qed.
-Print Assumptions C13_dedup_covers.
 
 (* running de-duplication on its own output removes nothing *)
 Theorem C13_dedup_idempotent : forall T (S : Scalar T) surfs,
   let new := fst (remove_duplicate_surfaces S surfs) in
   remove_duplicate_surfaces S new = (new, map (fun e => (fst e, fst e)) new).
 Proof. exact @dedup_idempotent. Qed.
-Print Assumptions C13_dedup_idempotent.
 
 (* renumbering by a sense-preserving map preserves every volume's denotation *)
 Theorem C13_renumber_den : forall (sigma sigma' : Z -> bool) (ren : list (Z * Z)),
@@ -81,7 +73,6 @@ Theorem C13_renumber_den : forall (sigma sigma' : Z -> bool) (ren : list (Z * Z)
   forall volus volus', renumber_surfaces volus ren = Ok volus' ->
   forall fuel k, vden fuel sigma' volus' k = vden fuel sigma volus k.
 Proof. exact renumber_den. Qed.
-Print Assumptions C13_renumber_den.
 
 (* --skip-deduplication off vs on: with the senses induced by ANY function of the
    descriptors (the sign of the implicit function at a point), every volume of
@@ -93,7 +84,6 @@ Theorem C13_dedup_den : forall (sense : desc R -> bool) surfs volus new ren volu
   renumber_surfaces volus ren = Ok volus' ->
   forall fuel k, vden fuel (sense_of sense new) volus' k = vden fuel (sense_of sense surfs) volus k.
 Proof. exact dedup_den. Qed.
-Print Assumptions C13_dedup_den.
 
 (* the same for any scalar (binary64): it suffices that the sense function
    respects the implementation's equality test *)
@@ -104,7 +94,6 @@ Theorem C13_dedup_den_any_scalar : forall T (S : Scalar T) (sense : desc T -> bo
   renumber_surfaces volus ren = Ok volus' ->
   forall fuel k, vden fuel (sense_of sense new) volus' k = vden fuel (sense_of sense surfs) volus k.
 Proof. exact @dedup_den_gen. Qed.
-Print Assumptions C13_dedup_den_any_scalar.
 
 (* the union helper planes take part in de-duplication and are renumbered with
    the other surfaces: the numbers handed to remove_empty_volumes are kept
@@ -115,7 +104,6 @@ Theorem C13_dedup_helpers_survive : forall T (S : Scalar T) surfs volus u0 u1 s'
   In (u0, a) (snd (remove_duplicate_surfaces S surfs)) /\
   In (u1, b) (snd (remove_duplicate_surfaces S surfs)).
 Proof. exact @dedup_helpers_survive. Qed.
-Print Assumptions C13_dedup_helpers_survive.
 
 (* hence the writer finds every surface it looks up - every table, every scalar,
    no guard: with de-duplication the conversion never ends in the KeyError that
@@ -125,7 +113,6 @@ Theorem C13_dedup_writer_finds_surfaces : forall T (S : Scalar T) surfs volus s'
   remove_empty_volumes v' a b = Ok v'' ->
   written_surfaces s' (remove_unused_volumes v'') <> Err EKey.
 Proof. exact @dedup_writer_finds_surfaces. Qed.
-Print Assumptions C13_dedup_writer_finds_surfaces.
 
 (* the former witness: a user PX 1, two copies of PY 0, cell (2 -3) : -1.  Helper 5
    is merged into surface 1; the emptied volume is written with PLUS 1 MINUS 6 *)
@@ -149,7 +136,6 @@ Theorem C13_remove_empty_sound : forall (sigma rho : Z -> bool) u0 u1,
   NoDup (map fst dic) -> vmodel sigma rho dic ->
   NoDup (map fst dic') /\ vmodel sigma rho dic' /\ tracks rho dic dic'.
 Proof. exact remove_empty_sound. Qed.
-Print Assumptions C13_remove_empty_sound.
 
 (* one run of the tail of convertMCNPGeometry + the SURF lines of the writer *)
 Theorem C13_finish_sound : forall (sense : desc R -> bool) skip surfs volus u0 u1 s' v3 w rho,
@@ -163,7 +149,6 @@ Theorem C13_finish_sound : forall (sense : desc R -> bool) skip surfs volus u0 u
   (forall k v0, lookup k volus = Some v0 -> lookup k v3 = None -> rho k = false \/ fictive v0 = true) /\
   (forall s, In s w -> lookup s s' <> None).
 Proof. exact finish_sound. Qed.
-Print Assumptions C13_finish_sound.
 
 (* the WRITTEN tables with and without de-duplication: the same denotation rho
    fits both, and a point (sense assignment) has the same owners - written,
@@ -178,13 +163,11 @@ Theorem C13_written_same_dedup : forall (sense : desc R -> bool) surfs volus u0 
   vmodel (sense_of sense sa) rho va /\ vmodel (sense_of sense sb) rho vb /\
   forall k origin, owner rho va k origin <-> owner rho vb k origin.
 Proof. exact written_same_dedup. Qed.
-Print Assumptions C13_written_same_dedup.
 
 (* the fuelled reading vden used above agrees with every denotation *)
 Theorem C13_vden_model : forall sigma rho dic, vmodel sigma rho dic ->
   forall fuel k b, vden fuel sigma dic k = Some b -> b = rho k.
 Proof. exact vden_model. Qed.
-Print Assumptions C13_vden_model.
 
 (* a second way in which the default options fail where --skip-deduplication
    succeeds: every volume becomes patently empty after de-duplication (the only
@@ -194,7 +177,6 @@ Theorem C13_dedup_all_empty_refuted :
   finish ZS false empty_surfs empty_volus 4 5 = Err EValue /\
   exists out, finish ZS true empty_surfs empty_volus 4 5 = Ok out.
 Proof. exact dedup_all_empty_refuted. Qed.
-Print Assumptions C13_dedup_all_empty_refuted.
 
 (* ---- inlining ---- *)
 
@@ -207,7 +189,6 @@ Theorem C13_inline_den : forall (rank : Z -> nat) (sigma : Z -> bool) fuel ti di
   (forall k, lookup k dic <> None <-> lookup k dic' <> None) /\
   (forall k, lookup k dic <> None -> cden rank sigma dic' k = cden rank sigma dic k).
 Proof. exact inline_den. Qed.
-Print Assumptions C13_inline_den.
 
 (* the same with the score computed as the code does (float division, <): for
    every scalar and every value of --max-inline-score *)
@@ -217,14 +198,12 @@ Theorem C13_inline_score_den : forall T (S : Scalar T) (rank : Z -> nat) (sigma 
   (forall k, lookup k dic <> None <-> lookup k dic' <> None) /\
   (forall k, lookup k dic <> None -> cden rank sigma dic' k = cden rank sigma dic k).
 Proof. exact @inline_score_den. Qed.
-Print Assumptions C13_inline_score_den.
 
 (* find_occurrences (the input of the score): occurrences[sub] lists only cells
    whose geometry mentions sub *)
 Theorem C13_find_occurrences_sound : forall dic occ, find_occurrences dic = Ok occ ->
   forall sub l, lookup sub occ = Some l -> forall key, In key l -> mentions dic key sub.
 Proof. exact find_occurrences_sound. Qed.
-Print Assumptions C13_find_occurrences_sound.
 
 (* ... and misses none: every mention made by a cell reachable from the level-0
    cells is recorded (so the number of mentions the score divides by is the number
@@ -233,7 +212,15 @@ Theorem C13_find_occurrences_complete : forall dic occ, find_occurrences dic = O
   forall key c sub, reachable dic key -> lookup key dic = Some c ->
     In sub (extract_subcells (cgeom c)) -> recorded occ sub key.
 Proof. exact find_occurrences_complete. Qed.
-Print Assumptions C13_find_occurrences_complete.
+
+(* ... and counts each mention exactly once (tables with distinct keys): the
+   number of entries [key] under [sub] is the number of times the geometry of
+   [key] mentions [sub] - so len(occurrences[sub]), which the score divides by, is
+   the number of mentions of sub in reachable cells *)
+Theorem C13_find_occurrences_count : forall dic occ, NoDup (map fst dic) -> find_occurrences dic = Ok occ ->
+  forall key c sub, reachable dic key -> lookup key dic = Some c ->
+    occ_cnt occ sub key = count_occ Z.eq_dec (extract_subcells (cgeom c)) sub.
+Proof. exact find_occurrences_count. Qed.
 
 (* inlining does what the option says: afterwards no cell mentions a cell of
    to_inline (given that no geometry is a bare CellRef, as pot_fill guarantees) *)
@@ -241,27 +228,23 @@ Theorem C13_inline_complete : forall fuel ti dic dic',
   no_bare dic -> inline_cells fuel ti dic = Ok dic' ->
   forall k c, lookup k dic' = Some c -> forall r, In r (refs (cgeom c)) -> memZ r ti = false.
 Proof. exact inline_complete. Qed.
-Print Assumptions C13_inline_complete.
 
 (* without acyclicity: whatever model the table has stays a model *)
 Theorem C13_inline_model : forall sigma rho fuel ti dic dic',
   inline_cells fuel ti dic = Ok dic' -> is_model sigma rho dic -> is_model sigma rho dic'.
 Proof. exact inline_cells_model. Qed.
-Print Assumptions C13_inline_model.
 
 (* the explicit fuel is harmless: on an acyclic table there is a bound above
    which inline_cells succeeds with one and the same answer *)
 Theorem C13_inline_total : forall (rank : Z -> nat) ti dic, acyclic rank dic ->
   exists N dic', forall fuel, (N <= fuel)%nat -> inline_cells fuel ti dic = Ok dic'.
 Proof. exact inline_total. Qed.
-Print Assumptions C13_inline_total.
 
 (* cden is THE denotation: it is a model, and every model agrees with it *)
 Theorem C13_acyclic_unique_model : forall (rank : Z -> nat) sigma dic, acyclic rank dic ->
   is_model sigma (cden rank sigma dic) dic /\
   forall rho, is_model sigma rho dic -> forall k, lookup k dic <> None -> rho k = cden rank sigma dic k.
 Proof. exact acyclic_unique_model. Qed.
-Print Assumptions C13_acyclic_unique_model.
 
 (* --always-inline-filled / --always-inline-filling: whichever of the four
    shapes pot_fill gives to a filled cell, it denotes container AND filler *)
@@ -270,7 +253,6 @@ Theorem C13_fill_geometry_den : forall sigma rho dic fd fg key cell elt ec,
   lookup key dic = Some cell -> lookup elt dic = Some ec ->
   geval sigma rho (fill_geometry fd fg key (cgeom cell) elt (cgeom ec)) = rho key && rho elt.
 Proof. exact fill_geometry_den. Qed.
-Print Assumptions C13_fill_geometry_den.
 
 (* ---- FILL with transformations (FILL=n (tr), TRCL of the filled cell) ---- *)
 (* P = points, [act t p] = the point at which the original object is looked at
@@ -286,7 +268,6 @@ Theorem C13_cell_transform_den : forall (Tr P : Type) (tr_eqb : Tr -> Tr -> bool
   wf act st' /\ text st st' /\
   forall senv D, sem act st' senv D -> forall p, D k p = D c (act t p).
 Proof. intros Tr P tr_eqb act H fuel t uc. exact (ctransform_spec tr_eqb act H fuel t uc). Qed.
-Print Assumptions C13_cell_transform_den.
 
 (* C13_fill_geometry_den with transformations: for the four combinations of
    --always-inline-filled / --always-inline-filling (the second also switches the
@@ -310,7 +291,35 @@ Theorem C13_fill_geometry_den_tr : forall (Tr P : Type) (tr_eqb : Tr -> Tr -> bo
     forall senv D, sem act st' senv D ->
       Forall2 (fun k' e => forall p, D k' p = D key p && D e (fold_right act p ts)) news elts.
 Proof. intros Tr P tr_eqb act H. exact (make_cells_tr_den tr_eqb act H). Qed.
-Print Assumptions C13_fill_geometry_den_tr.
+
+(* the whole recursion of pot_fill with transformations against [spec], a
+   flag-independent list of (universe, provenance, material, denotation) items:
+   every run returns keys that realise the items one by one ([matches]: the
+   record of the cell and, in every semantics of the final state, its denotation
+   at every point).  dic0 = the table as parsed (no CellRef), [based] = its cells
+   are still in the state *)
+Theorem C13_pot_fill_tr_spec : forall (Tr P : Type) (tr_eqb : Tr -> Tr -> bool) (act : Tr -> P -> P),
+  (forall a b, tr_eqb a b = true -> forall p, act a p = act b p) ->
+  forall fd fg dic0 tinfo, norefs dic0 ->
+  forall fuel key st ks st', wf act st -> based dic0 st -> lookup key dic0 <> None ->
+  pot_fill_tr tr_eqb fuel fd fg dic0 tinfo key st = Ok (ks, st') ->
+  wf act st' /\ text st st' /\
+  exists its, spec act fuel dic0 tinfo key = Some its /\ Forall2 (matches act st') ks its.
+Proof. intros Tr P tr_eqb act H. exact (pot_fill_tr_spec tr_eqb act H). Qed.
+
+(* two runs under different inline flags (different caches, different numbers
+   of intermediate cells and surfaces, hence different keys): the returned key
+   lists correspond position by position - a key renaming that preserves
+   universe, provenance, material and denotation ([same_cell]) *)
+Theorem C13_fill_tr_two_runs : forall (Tr P : Type) (tr_eqb : Tr -> Tr -> bool) (act : Tr -> P -> P),
+  (forall a b, tr_eqb a b = true -> forall p, act a p = act b p) ->
+  forall dic0 tinfo fuel key fd1 fg1 fd2 fg2 sa sb ks1 sa' ks2 sb',
+  norefs dic0 -> lookup key dic0 <> None ->
+  wf act sa -> based dic0 sa -> wf act sb -> based dic0 sb ->
+  pot_fill_tr tr_eqb fuel fd1 fg1 dic0 tinfo key sa = Ok (ks1, sa') ->
+  pot_fill_tr tr_eqb fuel fd2 fg2 dic0 tinfo key sb = Ok (ks2, sb') ->
+  Forall2 (same_cell act sa' sb') ks1 ks2.
+Proof. intros Tr P tr_eqb act H. exact (pot_fill_tr_two_runs tr_eqb act H). Qed.
 
 (* the FILL loop under two pairs of inline flags runs in lock-step: same outcome
    (same exception or both succeed), same counter, same keys / universes / FILL
@@ -324,7 +333,6 @@ Theorem C13_fill_flags_lockstep : forall fuel fd1 fg1 fd2 fg2 dic counter,
   | _, _ => False
   end.
 Proof. exact fill_flags_lockstep. Qed.
-Print Assumptions C13_fill_flags_lockstep.
 
 (* ---- all options together, over the model pipeline ---- *)
 (* The options act in two places of the pipeline, separated by the conversion of
@@ -355,7 +363,6 @@ Theorem C13_options_same_geometry :
      (forall fuel k, vden fuel (sense_of sense s1) v1 k = vden fuel (sense_of sense s2) v2 k) /\
      sense_of sense s1 a1 = sense_of sense s2 a2 /\ sense_of sense s1 b1 = sense_of sense s2 b2).
 Proof. exact options_same_geometry. Qed.
-Print Assumptions C13_options_same_geometry.
 
 (* ---- linked with C01 (cell trees -> volumes -> written table) ---- *)
 From T4V Require C01.Model C01.Spec C01.ProofsPrune C01.ProofsCells.
@@ -368,7 +375,6 @@ Theorem C13_merged_surfaces_equal_senses : forall (sense : desc R -> bool) (surf
   NoDup (map fst surfs) ->
   C01.ProofsPrune.respects (sense_of sense surfs) (snd (remove_duplicate_surfaces RS surfs)).
 Proof. exact merged_surfaces_equal_senses. Qed.
-Print Assumptions C13_merged_surfaces_equal_senses.
 
 (* THE PROPERTY for two option vectors, composed in Coq: stage 1 is C13's
    cell_stage (FILL under the inline flags, inlining of any set), stage 2 and 3
@@ -411,7 +417,6 @@ Theorem C13_options_same_written_linked :
    (forall a b, lookup c d1 = Some a -> lookup c d2 = Some b ->
       corigin a = corigin b /\ cmat a = cmat b)).
 Proof. exact options_same_written_linked_input. Qed.
-Print Assumptions C13_options_same_written_linked.
 
 (* the same with the renumbering of each option vector taken from C13's own
    de-duplication ([renumbering_of]: none under --skip-deduplication) and sigma
@@ -443,7 +448,105 @@ Theorem C13_options_same_written_dedup_linked :
    (forall a b, lookup c d1 = Some a -> lookup c d2 = Some b ->
       corigin a = corigin b /\ cmat a = cmat b)).
 Proof. exact options_same_written_dedup_linked. Qed.
-Print Assumptions C13_options_same_written_dedup_linked.
+
+(* ... and about the WRITTEN volumes themselves, as the property text says
+   ("a volume with the same provenance and the same composition"): for the owner
+   cell c (listed; its geometry an operator node in both tables, as pot_fill builds
+   them) both written tables contain the non-FICTIVE volume numbered c, sigma lies
+   in it, its v_orig (the comment after ENDV) is the provenance of cell c in both,
+   and the material GEOMCOMP attaches to volume c is the same.  Proved over C01's
+   definitions in coq/C13/LinkC01Orig.v (root volume of pot_to_t4_cell carries
+   idorigin; convert_cells copies it; renumber / remove_empty / remove_unused /
+   written keep v_orig). *)
+From T4V Require C01.Model.
+Theorem C13_options_same_written_provenance_linked :
+  forall fuel (o1 o2 : options) dic counter d1 c1 d2 c2
+         sigma matching u0 u1 cfuel todo cnt0 s1 s2 rn1 rn2 skipped w1 w2 c a b,
+  (forall k, lookup k dic <> None -> k <= counter) -> (exists rank, acyclic rank dic) ->
+  good_cells matching dic ->
+  cell_stage fuel o1 dic counter = Ok (d1, c1) -> cell_stage fuel o2 dic counter = Ok (d2, c2) ->
+  0 < u0 -> 0 < u1 -> C01.Spec.consistent sigma u0 u1 ->
+  NoDup todo -> (forall k, In k todo -> k <= cnt0) -> (forall k, In k todo -> lookup k d1 <> None) ->
+  C01.Model.convert_cells cfuel (embed_cells d1) matching u0 u1 todo (C01.Model.mkSt cnt0 [] [] []) = C01.Model.Ok s1 ->
+  C01.Model.convert_cells cfuel (embed_cells d2) matching u0 u1 todo (C01.Model.mkSt cnt0 [] [] []) = C01.Model.Ok s2 ->
+  C01.Model.prune u0 u1 rn1 (C01.Model.vols s1) = C01.Model.Ok w1 ->
+  C01.Model.prune u0 u1 rn2 (C01.Model.vols s2) = C01.Model.Ok w2 ->
+  (forall r, rn1 = Some r -> C01.ProofsPrune.respects sigma r) ->
+  (forall r, rn2 = Some r -> C01.ProofsPrune.respects sigma r) ->
+  (forall k, In k skipped -> k <= cnt0 /\ ~ In k todo) ->
+  In c todo -> lookup c d1 = Some a -> lookup c d2 = Some b ->
+  is_gnode (cgeom a) -> is_gnode (cgeom b) ->
+  exists r1, acyclic r1 d1 /\
+  (cden r1 (sigmaM sigma matching) d1 c = true ->
+   (forall c', In c' todo -> cden r1 (sigmaM sigma matching) d1 c' = true -> c' = c) ->
+   exists v1 v2,
+     C01.Model.lookup c (C01.Model.written skipped w1) = Some v1 /\
+     C01.Model.lookup c (C01.Model.written skipped w2) = Some v2 /\
+     C01.Model.v_fict v1 = false /\ C01.Model.v_fict v2 = false /\
+     C01.ProofsCells.in_volume sigma (C01.Model.written skipped w1) c /\
+     C01.ProofsCells.in_volume sigma (C01.Model.written skipped w2) c /\
+     C01.Model.v_orig v1 = corigin a /\ C01.Model.v_orig v2 = corigin a /\ cmat a = cmat b).
+Proof. exact options_same_written_provenance. Qed.
+
+(* WITH transformations (FILL=n (tr), TRCL), where the two runs create different
+   cell and surface numbers: the statement up to the key renaming of
+   C13_fill_tr_two_runs.  todo1 / todo2 realise the same items position by position;
+   (senv_i, D_i) are semantics of the two final states that give every item the same
+   denotation at the point p (C13_spec_den_agree: e.g. when they agree on the
+   surfaces of the deck); sigma_i, matching_i read senv_i at p at TRIPOLI-4 level.
+   If the cell at some position owns p in run 1, the written owner of p is the
+   volume numbered by that cell in run 1 and the volume numbered by the cell AT THE
+   SAME POSITION in run 2, and the two cells have the same provenance and material *)
+From T4V Require Import C13.LinkC01Tr.
+Theorem C13_options_same_written_tr_linked :
+  forall (Tr P : Type) (act : Tr -> P -> P) (sa sb : @tstate Tr) todo1 todo2 (its : list (@item P))
+         (senv1 D1 senv2 D2 : Z -> P -> bool) (p : P)
+         sigma1 matching1 sigma2 matching2 u0 u1 v0 v1 cfuel cnt1 cnt2 s1 s2 rn1 rn2 sk1 sk2 w1 w2 k1 k2,
+  Forall2 (matches act sa) todo1 its -> Forall2 (matches act sb) todo2 its ->
+  sem act sa senv1 D1 -> sem act sb senv2 D2 ->
+  Forall (fun it => i_den it senv1 p = i_den it senv2 p) its ->
+  (forall s, sigmaM sigma1 matching1 s = senv1 s p) -> (forall s, sigmaM sigma2 matching2 s = senv2 s p) ->
+  good_cells matching1 (tcells sa) -> good_cells matching2 (tcells sb) ->
+  0 < u0 -> 0 < u1 -> C01.Spec.consistent sigma1 u0 u1 ->
+  0 < v0 -> 0 < v1 -> C01.Spec.consistent sigma2 v0 v1 ->
+  NoDup todo1 -> NoDup todo2 ->
+  (forall k, In k todo1 -> k <= cnt1) -> (forall k, In k todo2 -> k <= cnt2) ->
+  C01.Model.convert_cells cfuel (embed_cells (tcells sa)) matching1 u0 u1 todo1 (C01.Model.mkSt cnt1 [] [] []) = C01.Model.Ok s1 ->
+  C01.Model.convert_cells cfuel (embed_cells (tcells sb)) matching2 v0 v1 todo2 (C01.Model.mkSt cnt2 [] [] []) = C01.Model.Ok s2 ->
+  C01.Model.prune u0 u1 rn1 (C01.Model.vols s1) = C01.Model.Ok w1 ->
+  C01.Model.prune v0 v1 rn2 (C01.Model.vols s2) = C01.Model.Ok w2 ->
+  (forall r, rn1 = Some r -> C01.ProofsPrune.respects sigma1 r) ->
+  (forall r, rn2 = Some r -> C01.ProofsPrune.respects sigma2 r) ->
+  (forall k, In k sk1 -> k <= cnt1 /\ ~ In k todo1) -> (forall k, In k sk2 -> k <= cnt2 /\ ~ In k todo2) ->
+  In (k1, k2) (combine todo1 todo2) ->
+  D1 k1 p = true -> (forall c, In c todo1 -> D1 c p = true -> c = k1) ->
+  (forall k, C01.ProofsCells.in_volume sigma1 (C01.Model.written sk1 w1) k <-> k = k1) /\
+  (forall k, C01.ProofsCells.in_volume sigma2 (C01.Model.written sk2 w2) k <-> k = k2) /\
+  exists c1 c2, lookup k1 (tcells sa) = Some c1 /\ lookup k2 (tcells sb) = Some c2 /\
+                corigin c1 = corigin c2 /\ cmat c1 = cmat c2.
+Proof. intros Tr P act. exact (options_same_written_tr act). Qed.
+
+(* the hypotheses of that theorem for the cells pot_fill_tr returns: both runs
+   realise the items of [spec], and two surface environments that agree on the
+   parsed cells give every item the same denotation *)
+Theorem C13_fill_tr_items : forall (Tr P : Type) (tr_eqb : Tr -> Tr -> bool) (act : Tr -> P -> P),
+  (forall a b, tr_eqb a b = true -> forall p, act a p = act b p) ->
+  forall dic0 tinfo fuel key fd1 fg1 fd2 fg2 sa sb ks1 sa' ks2 sb',
+  norefs dic0 -> lookup key dic0 <> None ->
+  wf act sa -> based dic0 sa -> wf act sb -> based dic0 sb ->
+  pot_fill_tr tr_eqb fuel fd1 fg1 dic0 tinfo key sa = Ok (ks1, sa') ->
+  pot_fill_tr tr_eqb fuel fd2 fg2 dic0 tinfo key sb = Ok (ks2, sb') ->
+  exists its, spec act fuel dic0 tinfo key = Some its /\
+              Forall2 (matches act sa') ks1 its /\ Forall2 (matches act sb') ks2 its /\
+              forall senv1 senv2, surf_agree dic0 senv1 senv2 ->
+                Forall (fun it => forall p, i_den it senv1 p = i_den it senv2 p) its.
+Proof.
+  intros Tr P tr_eqb act H dic0 tinfo fuel key fd1 fg1 fd2 fg2 sa sb ks1 sa' ks2 sb' Hn Hk Hwa Hba Hwb Hbb H1 H2.
+  destruct (two_runs_items tr_eqb act H dic0 tinfo fuel key fd1 fg1 fd2 fg2 sa sb ks1 sa' ks2 sb'
+              Hn Hk Hwa Hba Hwb Hbb H1 H2) as [its [Hs [M1 M2]]].
+  exists its. split; [exact Hs|]. split; [exact M1|]. split; [exact M2|].
+  intros senv1 senv2 Hag. exact (spec_den_agree act dic0 tinfo senv1 senv2 Hag fuel key its Hs).
+Qed.
 
 (* non-vacuity of the link: both stage-1 tables of C13_example_options run through
    C01's loop and prune (with and without a renumbering) and leave the same
@@ -504,3 +607,39 @@ Example C13_example_dedup :
   remove_duplicate_surfaces ZS [(2, mkDesc 0%N [2] None); (3, mkDesc 1%N [3] None); (1, mkDesc 0%N [2] None)]
   = ([(1, mkDesc 0%N [2] None); (3, mkDesc 1%N [3] None)], [(1, 1); (2, 1); (3, 3)]).
 Proof. vm_compute. reflexivity. Qed.
+
+(* ================================================================== *)
+(* Families: the conjunction of the theorems above, grouped, so that one *)
+(* Print Assumptions audits each group (the statement of a family is     *)
+(* literally the conjunction of the statements of its members).         *)
+(* ================================================================== *)
+(* SurfaceT4 equality / hash, remove_duplicate_surfaces, renumber_surfaces, helper planes, the writer's lookups *)
+Theorem C13_family_dedup :
+  ltac:(let t := type of (conj C13_dedup_merges_equal (conj C13_dedup_merges_tested (conj C13_desc_eqb_sound (conj C13_hash_consistent (conj C13_dedup_survivor_smallest (conj C13_dedup_survivor_minimal (conj C13_dedup_covers (conj C13_dedup_idempotent (conj C13_renumber_den (conj C13_dedup_den (conj C13_dedup_den_any_scalar (conj C13_dedup_helpers_survive (conj C13_dedup_writer_finds_surfaces C13_dedup_all_empty_refuted))))))))))))) in exact t).
+Proof. exact (conj C13_dedup_merges_equal (conj C13_dedup_merges_tested (conj C13_desc_eqb_sound (conj C13_hash_consistent (conj C13_dedup_survivor_smallest (conj C13_dedup_survivor_minimal (conj C13_dedup_covers (conj C13_dedup_idempotent (conj C13_renumber_den (conj C13_dedup_den (conj C13_dedup_den_any_scalar (conj C13_dedup_helpers_survive (conj C13_dedup_writer_finds_surfaces C13_dedup_all_empty_refuted))))))))))))). Qed.
+Print Assumptions C13_family_dedup.
+
+(* the volume tables after remove_empty_volumes / the tail of convertMCNPGeometry, --skip-deduplication on and off *)
+Theorem C13_family_written :
+  ltac:(let t := type of (conj C13_remove_empty_sound (conj C13_finish_sound (conj C13_written_same_dedup C13_vden_model))) in exact t).
+Proof. exact (conj C13_remove_empty_sound (conj C13_finish_sound (conj C13_written_same_dedup C13_vden_model))). Qed.
+Print Assumptions C13_family_written.
+
+(* find_occurrences, the score, inline_cells: every set, acyclic tables, fuel *)
+Theorem C13_family_inline :
+  ltac:(let t := type of (conj C13_inline_den (conj C13_inline_score_den (conj C13_find_occurrences_sound (conj C13_find_occurrences_complete (conj C13_find_occurrences_count (conj C13_inline_complete (conj C13_inline_model (conj C13_inline_total C13_acyclic_unique_model)))))))) in exact t).
+Proof. exact (conj C13_inline_den (conj C13_inline_score_den (conj C13_find_occurrences_sound (conj C13_find_occurrences_complete (conj C13_find_occurrences_count (conj C13_inline_complete (conj C13_inline_model (conj C13_inline_total C13_acyclic_unique_model)))))))). Qed.
+Print Assumptions C13_family_inline.
+
+(* pot_fill under the inline flags, with and without transformations; both stages of the options *)
+Theorem C13_family_fill :
+  ltac:(let t := type of (conj C13_fill_geometry_den (conj C13_cell_transform_den (conj C13_fill_geometry_den_tr (conj C13_pot_fill_tr_spec (conj C13_fill_tr_two_runs (conj C13_fill_flags_lockstep (conj C13_options_same_geometry C13_fill_tr_items))))))) in exact t).
+Proof. exact (conj C13_fill_geometry_den (conj C13_cell_transform_den (conj C13_fill_geometry_den_tr (conj C13_pot_fill_tr_spec (conj C13_fill_tr_two_runs (conj C13_fill_flags_lockstep (conj C13_options_same_geometry C13_fill_tr_items))))))). Qed.
+Print Assumptions C13_family_fill.
+
+(* composed with C01 (conversion loop, prune, written): the property for two option vectors *)
+Theorem C13_family_linked :
+  ltac:(let t := type of (conj C13_merged_surfaces_equal_senses (conj C13_options_same_written_linked (conj C13_options_same_written_dedup_linked (conj C13_options_same_written_provenance_linked C13_options_same_written_tr_linked)))) in exact t).
+Proof. exact (conj C13_merged_surfaces_equal_senses (conj C13_options_same_written_linked (conj C13_options_same_written_dedup_linked (conj C13_options_same_written_provenance_linked C13_options_same_written_tr_linked)))). Qed.
+Print Assumptions C13_family_linked.
+
